@@ -223,7 +223,8 @@ class Model(object):
             self.objval[k] += self.h(remove_scaling(self.xbase + self.points[k, :], self.scaling_changes), *self.argsh)
         self.nsamples[k] += 1
 
-        self.kopt = np.argmin(self.objval[:self.npt()])  # make sure kopt is always the best value we have
+        if not np.all(np.isnan(self.objval[:self.npt()])):
+            self.kopt = np.nanargmin(self.objval[:self.npt()])  # make sure kopt is always the best (non-NaN) value we have
         return
 
     def add_new_point(self, x, rvec, eval_num):
